@@ -14,7 +14,7 @@ func init() {
 	register(&propDef{
 		ID: "C16",
 		Meta: propMeta{
-			Explanation: "Decides the structural mechanisms that make re-encoding lossless: (R16a) type shape — ContentInfo and SignerInfo capture their original encoding in a leading asn1.RawContent field, certificates, attribute values and issuer names are asn1.RawValue, marshalCertificates fills FullBytes from cert.Raw (removing any of these makes encoding/asn1 re-encode signed parts); (R16b) signed attributes are digested in the encoding that is emitted: the verifier hashes AuthenticatedAttributesBytes(), which returns the re-marshalled list only when no raw content was captured and otherwise re-tags the original bytes; the builder hashes and emits the same attribute list; (R16c) content-type and message-digest are added exactly once, only by SignatureBuilder.Sign under `authAttrs != nil`, with the builder's content type and digest; no other code adds those OIDs; no function calls Sign() twice on one builder or in a loop; (R16d) every SignatureBuilder.Sign result flows into pkcs9.TimestampAndMarshal, which self-checks (SignedData.Verify + VerifyOptionalTimestamp) before marshalling and returns the marshalled bytes of that same structure; (R16e) in lib/pkcs7 and lib/pkcs9 no failure branch of asn1.Marshal/Unmarshal reaches a nil-error return (one unreachable site noted); (R16f) Detach replaces the content by a content-less ContentInfo of the same type. (R16h) SignedData.CRLs keeps each CRL's signed part raw (asn1.RawValue or a tbsCertList with a leading RawContent); NewContentInfo records the content type it was asked for on every path; no parsed structure that is returned aliases a buffer that goes back into a sync.Pool. (R16g) a ContentInfo handed to the builder is stored, digested and emitted as it is.",
+			Explanation: "Decides the structural mechanisms that make re-encoding lossless: (R16a) type shape — ContentInfo and SignerInfo capture their original encoding in a leading asn1.RawContent field, certificates, attribute values and issuer names are asn1.RawValue, marshalCertificates fills FullBytes from cert.Raw (removing any of these makes encoding/asn1 re-encode signed parts); (R16b) signed attributes are digested in the encoding that is emitted: the verifier hashes AuthenticatedAttributesBytes(), which returns the re-marshalled list only when no raw content was captured and otherwise re-tags the original bytes; the builder hashes and emits the same attribute list; (R16c) content-type and message-digest are added exactly once, only by SignatureBuilder.Sign under `authAttrs != nil`, with the builder's content type and digest; no other code adds those OIDs; no function calls Sign() twice on one builder or in a loop; (R16d) every SignatureBuilder.Sign result flows into pkcs9.TimestampAndMarshal, which self-checks (SignedData.Verify + VerifyOptionalTimestamp) before marshalling and returns the marshalled bytes of that same structure; (R16e) in lib/pkcs7 and lib/pkcs9 no failure branch of asn1.Marshal/Unmarshal reaches a nil-error return (one unreachable site noted); (R16f) Detach replaces the content by a content-less ContentInfo of the same type. (R16h) SignedData.CRLs keeps each CRL's signed part raw (asn1.RawValue or a tbsCertList with a leading RawContent); NewContentInfo records the content type it was asked for on every path; no parsed structure that is returned aliases a buffer that goes back into a sync.Pool. (R16g) a ContentInfo handed to the builder is stored, digested and emitted as it is. (R16i) no function writes a field of a SignedData, ContentInfoSignedData, ContentInfo or SignerInfo that it did not build itself (one reached from a parameter, a copy of a by-value parameter, a call result or a package variable), the unsigned attributes excepted, other than ContentInfoSignedData.Detach: getters and helpers on the way to embedding leave a received token exactly as it was parsed.",
 			NotDecided:  "byte identity of Marshal(Unmarshal(x)) on concrete values (a property of encoding/asn1 on data), BER quirks of third-party tokens.",
 			Assumptions: []string{"encoding/asn1 writes RawContent / RawValue.FullBytes verbatim"},
 		},
@@ -570,6 +570,7 @@ func runC16(c *Ctx) {
 		c.Check(ok, "R16f", p.FName(fn)+" keeps the content type", p.Pos(fn.Pos()), "NewContentInfo(old ContentType, nil)", "Detach does not rebuild the ContentInfo with the same content type and no content")
 	}
 	c16Round2(c)
+	c16WhoWrites(c)
 }
 
 // ------------------------------------------------------------------------------ R16h
@@ -647,4 +648,84 @@ func c16Round2(c *Ctx) {
 		c.Check(f.OK, "R16h", f.Key, f.Pos, "", f.Detail)
 	}
 	c.runControl("R16h pooled memory also returned", "hasher).release", poolEscapes)
+}
+
+// ------------------------------------------------------------------------------ R16i
+
+// c16WhoWrites: a SignedData, ContentInfo or SignerInfo that a function did not build itself - one
+// it was handed, parsed, or copied from a parameter - is written to by nobody but Detach (which
+// replaces the content with the content-less form and nothing else). Getters, "normalising"
+// helpers and de-duplication on the way to embedding change what a third party signed.
+var c16Writers = map[string]string{
+	"(*lib/pkcs7.ContentInfoSignedData).Detach lib/pkcs7.SignedData.ContentInfo": "Detach: the eContent is removed, the eContentType kept (R16c checks what it stores)",
+}
+
+func c16WhoWrites(c *Ctx) {
+	p := c.P
+	c.Rule("R16i", "a received or parsed SignedData / ContentInfo / SignerInfo is written to only by Detach; everything else builds fresh values", 1)
+	guarded := map[string]bool{"lib/pkcs7.SignedData": true, "lib/pkcs7.ContentInfoSignedData": true, "lib/pkcs7.ContentInfo": true, "lib/pkcs7.SignerInfo": true}
+	n := 0
+	for _, fn := range p.Funcs {
+		for _, b := range fn.Blocks {
+			for _, in := range b.Instrs {
+				st, ok := in.(*ssa.Store)
+				if !ok {
+					continue
+				}
+				tn, f, base := p.fieldAddr(st.Addr)
+				if !guarded[tn] {
+					continue
+				}
+				// unsigned attributes are the place where tokens are attached
+				if tn == "lib/pkcs7.SignerInfo" && f == "UnauthenticatedAttributes" {
+					continue
+				}
+				fresh, origin := true, "a fresh local value"
+				v := base
+				for i := 0; i < 16 && v != nil; i++ {
+					switch x := v.(type) {
+					case *ssa.FieldAddr:
+						v = x.X
+						continue
+					case *ssa.IndexAddr:
+						v = x.X
+						continue
+					case *ssa.UnOp:
+						v = x.X
+						continue
+					case *ssa.Parameter:
+						fresh, origin = false, "parameter "+x.Name()
+					case *ssa.Call, *ssa.Extract:
+						fresh, origin = false, "the result of a call"
+					case *ssa.Global:
+						fresh, origin = false, "a package variable"
+					case *ssa.Alloc:
+						// the spill of a by-value parameter is the parameter
+						for _, ref := range *x.Referrers() {
+							if s2, ok := ref.(*ssa.Store); ok && s2.Addr == ssa.Value(x) {
+								if pa, isP := s2.Val.(*ssa.Parameter); isP {
+									fresh, origin = false, "a copy of parameter "+pa.Name()
+								}
+							}
+						}
+					}
+					break
+				}
+				if fresh {
+					continue
+				}
+				n++
+				key := fmt.Sprintf("%s %s.%s", p.FName(fn), tn, f)
+				c.Analysed(p.FName(fn))
+				if why, ok := c16Writers[key]; ok {
+					c.PassTrivial("R16i", key, p.Pos(st.Pos()), "allowed writer: "+why)
+					continue
+				}
+				c.Fail("R16i", key, p.Pos(st.Pos()), fmt.Sprintf("%s.%s of %s is overwritten: the structure was parsed from, or will be emitted as, bytes that carry somebody's signature (a timestamp authority's token, a catalog, a received SignedData); changing a signed field - the content, the certificate set, a signer-info - between parsing and emitting makes the emitted bytes differ from the signed ones, or drops material a third-party verifier needs", tn, f, origin))
+			}
+		}
+	}
+	if n == 0 {
+		c.Undecided("R16i", "writers of received pkcs7 structures", "-", "not even Detach's store was found")
+	}
 }
